@@ -637,10 +637,29 @@ func (g *gen) smpRefusedMidRun(w *world) {
 		if when == 1 { // the peer has been asked already; otherwise the request is still on its way
 			n.pump(nil)
 		}
+		// every other round the call is refused for another reason: the question is fine, but the
+		// randomness source fails at the first draw of the new run
+		randFails := g.r.Intn(2) == 0
+		if randFails {
+			badQ = q
+			ini.rnd.failAt = ini.rnd.reads
+		}
 		ts, err := n.w.smpStart(ini, badQ, other)
+		ini.rnd.failAt = -1
 		n.note(ini)
 		olog.ok("C11")
-		if err == nil || len(ts) > 0 {
+		if randFails && (err == nil || len(ts) > 0) {
+			// (the read that was to fail was not the one the call makes first: nothing to check here)
+			n.l.enqueue(ini, ts)
+			n.pump(nil)
+			for _, p := range []*party{ini, res} {
+				ts, _ = n.w.smpAbort(p)
+				n.l.enqueue(p, ts)
+				n.pump(nil)
+			}
+			continue
+		}
+		if !randFails && (err == nil || len(ts) > 0) {
 			olog.viol("C11", "question-with-nul-accepted", fmt.Sprintf("OTRv%d: StartAuthenticate(%q, %s) during a run accepts a question containing a NUL byte (%d messages, err %v)", version, badQ, sq(other), len(ts), err))
 			n.l.enqueue(ini, ts)
 			n.pump(nil)
